@@ -14,15 +14,18 @@ def AX(k, what):
     return sp.Symbol("AX%d_%s" % (k, what), real=True, positive=(what in ("delta", "steps")) or None)
 
 
-def axis_of(obj):
+def axis_of(obj, _depth=0):
     """which axis (0/1) does a ruler-valued expression denote? None if unknown"""
     n = A.strip(obj)
+    while isinstance(n, dict) and n.get("k") in ("CXXConstructExpr", "MaterializeTemporaryExpr", "CXXBindTemporaryExpr", "ExprWithCleanups") and \
+            len(n.get("args", n.get("c", []))) == 1:
+        n = A.strip((n.get("args") or n.get("c"))[0])
     if n is None:
         return None
     k = n.get("k")
     # shared_ptr operator-> / operator*
     if k == "CXXOperatorCallExpr" and n.get("op") in ("->", "*") and n.get("args"):
-        return axis_of(n["args"][0])
+        return axis_of(n["args"][0], _depth)
     if k == "CXXOperatorCallExpr" and n.get("op") == "[]" and len(n.get("args", [])) == 2:
         base = A.strip(n["args"][0])
         if A.member_name(base) == "_axis" or (A.declref(base) or {}).get("name") == "_axis":
@@ -48,6 +51,17 @@ def axis_of(obj):
         return None
     if k == "DeclRefExpr" and n.get("_axis_alias") is not None:
         return n["_axis_alias"]
+    if k == "DeclRefExpr" and _depth < 3:
+        # a local that was given the ruler (const meshRuler_ptr& ax = _axis[1]; auto ax = ps->getAxis(1);), written nowhere else
+        sc = I.active_scanner()
+        if sc is not None:
+            loc = sc.locals.get(n.get("decl"))
+            if loc is not None and "init" in loc and sc.assigned.get(n["decl"], 0) == 0:
+                return axis_of(loc["init"], _depth + 1)
+    if k == "UnaryOperator" and n.get("op") == "*" and n.get("c"):
+        return axis_of(n["c"][0], _depth)
+    if k == "CXXMemberCallExpr" and (n.get("callee") or "").endswith("::get") and A.call_object(n) is not None:
+        return axis_of(A.call_object(n), _depth)      # shared_ptr::get()
     return None
 
 
